@@ -798,11 +798,14 @@ struct TagScenario {
     kind: Kind,
     /// bit t set = node carries TAGS[t]
     assign: [u8; TAG_NODES],
+    /// the node that fails in the last round is silent until its timeout on every attempt (instead of
+    /// refusing); node timeouts are then the short NODE_TIMEOUT
+    silent: bool,
 }
 
 impl TagScenario {
     fn to_json(&self) -> Value {
-        json!({"shape": "tags", "fleet": self.kind.name(), "assign": self.assign.to_vec(), "tags": TAGS})
+        json!({"shape": "tags", "fleet": self.kind.name(), "assign": self.assign.to_vec(), "tags": TAGS, "silent": self.silent})
     }
     fn from_json(v: &Value) -> Option<TagScenario> {
         let a = v["assign"].as_array()?;
@@ -813,12 +816,13 @@ impl TagScenario {
         for (i, x) in a.iter().enumerate() {
             assign[i] = x.as_u64()? as u8;
         }
-        Some(TagScenario { kind: Kind::parse(v["fleet"].as_str()?)?, assign })
+        Some(TagScenario { kind: Kind::parse(v["fleet"].as_str()?)?, assign, silent: v["silent"].as_bool().unwrap_or(false) })
     }
     fn label(&self) -> String {
         format!(
-            "{} broadcast nodes=[{}]",
+            "{} broadcast{} nodes=[{}]",
             self.kind.name(),
+            if self.silent { " (failing node silent until timeout on every attempt)" } else { "" },
             self.assign.iter().enumerate().map(|(i, m)| format!("n{i}:{{{}}}", mask_tags(*m).join(","))).collect::<Vec<_>>().join(" ")
         )
     }
@@ -844,7 +848,7 @@ fn run_tags(ts: &TagScenario) -> Result<Vec<BcastObs>, String> {
         let n = FakeNode::start(&format!("n{i}"), vec![], Garbage::BadSpec, 0)?;
         let cfg = NodeConfig::new("127.0.0.1", n.port())
             .and_then(|c| c.with_name(format!("n{i}")))
-            .and_then(|c| c.with_timeout(TAG_NODE_TIMEOUT))
+            .and_then(|c| c.with_timeout(if ts.silent { NODE_TIMEOUT } else { TAG_NODE_TIMEOUT }))
             .map_err(|e| e.to_string())?
             .with_tags(mask_tags(ts.assign[i]));
         cfgs.push(cfg);
@@ -863,7 +867,7 @@ fn run_tags(ts: &TagScenario) -> Result<Vec<BcastObs>, String> {
     for (q, down) in rounds {
         call += 1;
         if let Some(d) = down {
-            nodes[d].sh_push(vec![Out::Refused; TAG_MAX_ATTEMPTS]);
+            nodes[d].sh_push(vec![if ts.silent { Out::Silent } else { Out::Refused }; TAG_MAX_ATTEMPTS]);
         }
         for n in &nodes {
             n.begin_call(call)?;
@@ -1053,6 +1057,8 @@ fn code_scripts() -> Vec<Vec<Out>> {
 enum Block {
     Single { kind: Kind, api: Api, max: usize, len: usize, garbage: Garbage },
     Tags { kind: Kind },
+    /// 16 tag assignments; the failing node of the last round is silent until timeout on every attempt
+    TagsSilent { kind: Kind },
     /// every error code of `ERR_CODES` x every script of length 1..=2 that contains an application error
     Codes { kind: Kind, api: Api, max: usize },
     /// one prefix x one recovery op x every script of one length (axis A)
@@ -1066,6 +1072,7 @@ impl Block {
         match self {
             Block::Single { len, .. } => crate::par::pow(ALPHABET.len() as u64, *len as u32),
             Block::Tags { .. } => crate::par::pow(1 << TAGS.len(), TAG_NODES as u32),
+            Block::TagsSilent { .. } => 16,
             Block::Codes { .. } => (ERR_CODES.len() * code_scripts().len()) as u64,
             Block::Prefixed { len, .. } => crate::par::pow(ALPHABET.len() as u64, *len as u32),
             Block::Dyn { len, .. } => crate::par::pow(dynset::OP_LETTERS, *len as u32),
@@ -1128,7 +1135,15 @@ impl Block {
                 crate::par::digits(i, 1 << TAGS.len(), TAG_NODES, &mut d);
                 let mut assign = [0u8; TAG_NODES];
                 assign.copy_from_slice(&d);
-                Case::Tags(TagScenario { kind: *kind, assign })
+                Case::Tags(TagScenario { kind: *kind, assign, silent: false })
+            }
+            Block::TagsSilent { kind } => {
+                // assignments 17 * i mod 256: spread over the 256 possible ones
+                let mut d = Vec::new();
+                crate::par::digits((i * 17) % crate::par::pow(1 << TAGS.len(), TAG_NODES as u32), 1 << TAGS.len(), TAG_NODES, &mut d);
+                let mut assign = [0u8; TAG_NODES];
+                assign.copy_from_slice(&d);
+                Case::Tags(TagScenario { kind: *kind, assign, silent: true })
             }
         }
     }
@@ -1159,6 +1174,7 @@ impl Plan {
         }
         for kind in [Kind::Blocking, Kind::Async] {
             blocks.push(Block::Tags { kind });
+            blocks.push(Block::TagsSilent { kind });
         }
         for max in 2..=max_hi {
             for kind in [Kind::Blocking, Kind::Async] {
